@@ -85,6 +85,10 @@ func C16(c *Ctx) {
 	p.W[gast.OneOrMore] = 10
 	p.W[gast.ZeroOrOne] = 12
 	p.W[gast.Action] = 10
+	p.W[gast.AndCode] = 7
+	p.W[gast.NotCode] = 5
+	p.W[gast.StateCode] = 4
+	p.StateSpec = func(r *rand.Rand) mon.Spec { return mon.Spec{S: 1} }
 	p.PEmptyLit = 12
 	var os []OptSet
 	os = append(os, OptSet{Name: "unbounded-safety-net"})
@@ -116,6 +120,13 @@ func c16Strata() []*gast.Grammar {
 		mk(r("S", gast.S(gast.Plus(gast.Star(gast.L("a"))), gast.L("b")))),
 		mk(r("S", gast.S(gast.Star(gast.Ref("E")), gast.L("b"))), r("E", gast.C(gast.L("a"), gast.L("")))),
 		mk(r("S", gast.A(gast.Star(gast.S(gast.Opt(gast.L("a")), gast.A(gast.L(""), 2, mon.Spec{}))), 1, mon.Spec{}))),
+		// repetitions whose operand is directly a code predicate / state block / predicate
+		mk(r("S", gast.S(gast.Star(gast.AndC(1, mon.Spec{})), gast.L("b")))),
+		mk(r("S", gast.S(gast.Opt(gast.L("a")), gast.Plus(gast.NotC(1, mon.Spec{B: 1})), gast.L("b")))),
+		mk(r("S", gast.S(gast.Star(gast.St(1, mon.Spec{S: 1})), gast.L("b")))),
+		mk(r("S", gast.S(gast.L("a"), gast.Star(gast.NotE(gast.L("z"))), gast.L("b")))),
+		mk(r("S", gast.S(gast.Star(gast.Ref("G")), gast.L("b"))), r("G", gast.AndC(1, mon.Spec{}))),
+		mk(r("S", gast.Star(gast.L("")))), mk(r("S", gast.S(gast.Plus(gast.Ref("P")), gast.L("b"))), r("P", gast.L(""))),
 	}
 }
 
@@ -127,6 +138,10 @@ func (c *Ctx) c16B() {
 	p.AllowNullableRep = true
 	p.W[gast.ZeroOrMore] = 14
 	p.W[gast.ZeroOrOne] = 12
+	p.W[gast.AndCode] = 7
+	p.W[gast.NotCode] = 5
+	p.W[gast.StateCode] = 4
+	p.StateSpec = func(r *rand.Rand) mon.Spec { return mon.Spec{S: 1} }
 	p.PEmptyLit = 12
 	gs := c16Strata()
 	for i := 0; i < c.N(40, 300); i++ {
@@ -198,7 +213,7 @@ func (c *Ctx) c16BRun(gs []*gast.Grammar, flagSets [][]string, isLR bool, rng *r
 			}
 		}
 	}
-	r1 := bt.Run(phase1, batch.RunOpts{MaxDeaths: 6})
+	r1 := bt.Run(phase1, batch.RunOpts{MaxDeaths: 4})
 	isBudget := func(r *mon.Result) bool {
 		return len(r.Errs) > 0 && r.Errs[len(r.Errs)-1].Inner == "max number of expressions parsed"
 	}
@@ -237,7 +252,7 @@ func (c *Ctx) c16BRun(gs []*gast.Grammar, flagSets [][]string, isLR bool, rng *r
 			phase2 = append(phase2, &mon.Case{ID: id, Pkg: k.u.Pkg, Input: k.in, Memo: k.memo, Debug: k.dbg, Stats: k.st, MaxExpr: n, MaxEvents: 2000})
 		}
 	}
-	r2 := bt.Run(phase2, batch.RunOpts{MaxDeaths: 6})
+	r2 := bt.Run(phase2, batch.RunOpts{MaxDeaths: 4})
 	for _, cs := range phase2 {
 		e := exps[cs.ID]
 		r := r2[cs.ID]
